@@ -39,7 +39,7 @@ class Ctx:
 
 
 def run_forked(prop, spec, scratch_root, n, want_sample=False):
-    d = os.path.join(scratch_root, 'r%d' % n)
+    d = os.path.join(scratch_root, 'r%07d' % n)      # (fixed width: paths show up in messages)
     r, w = os.pipe()
     pid = os.fork()
     if pid == 0:
